@@ -66,8 +66,15 @@ def size_scenarios(tier):
                    steps=[dict(a="create", u="1", s="s1", c="a", chid=1, usage=[]), dict(a="update", u="1", s="s1", usage=small),
                           dict(a="update", u="1", s="s1", usage=large), dict(a="update", u="1", s="s1", usage=large),
                           dict(a="release", u="1", s="s1", usage=large, trig=[])])
+    # one octet at a time: usage entries whose encoded length sweeps through 127/128 and 255/256 (UPF identifier of
+    # growing length), so that every length-octet boundary of the BER encoding is met by some element of the record
+    sweep = dict(id="C03-lengths", lrsn0=0, wb=False, ues=["1"], accts=acct,
+                 steps=[dict(a="create", u="1", s="s1", c="a", chid=1, usage=[])]
+                       + [dict(a="update", u="1", s="s1", upf="u" * n, usage=[dict(rg="1", req=-1, conts=[dict(m="off", vol=1)])])
+                          for n in list(range(60, 140)) + list(range(190, 270))]
+                       + [dict(a="release", u="1", s="s1", usage=[], trig=[])])
     return [
-        growing,
+        growing, sweep,
         dict(id="C03-bigcreate", lrsn0=0, wb=False, ues=["1"], accts=acct,
              steps=[dict(a="create", u="1", s="s1", c="a", chid=1, pad=66000, usage=[])]),
         dict(id="C03-bigupdate", lrsn0=0, wb=False, ues=["1"], accts=acct,
